@@ -72,7 +72,9 @@ def main():
         meta["check_exit"] = c.returncode
         meta["check_wall_s"] = round(time.time() - t0)
         meta["check_lines"] = [l[:400] for l in lines[:8]] + ([lines[-1][:300]] if len(lines) > 8 else [])
-        meta["detected"] = c.returncode == 1
+        meta["detected"] = c.returncode == 1 and any(l.startswith("VIOLATION property=%s " % prop) for l in lines)
+        if c.returncode not in (0, 1) or (c.returncode == 1 and not meta["detected"]):
+            meta["check_problem"] = (c.stdout + c.stderr)[-600:]
         meta["ran"].append("git -C /repo apply; python3-vt -m vf.check %s --tier %s; git -C /repo checkout -- ." % (prop, tier))
     d = os.path.join("/verif/seeded", name)
     os.makedirs(d, exist_ok=True)
